@@ -358,7 +358,35 @@ def run_sym(ctx, p):
     ctx.nontrivial('sym', which)
 
 
-RUNNERS = {'adj_multi': run_adj_multi, 'maps': run_maps, 'adj': run_adj, 'adj3': run_adj3, 'delta': run_delta, 'sym': run_sym}
+def run_exact(ctx, p):
+    """matrices whose entries are whole numbers (a rotation of the cube, integer translations) held in an integer or narrow float
+    element type: the inverse, the two-argument difference and the adjoint of the inverse are those of the same numbers in float64"""
+    b = B()
+    dt = np.dtype(p['dtype'])
+    T0, T1 = np.asarray(p['T0'], dtype=np.float64), np.asarray(p['T1'], dtype=np.float64)
+    sig = dict(api=p['which'], dtype=str(dt))
+    f = {'trinv': lambda A, B_: b.trinv(A), 'tr2delta2': lambda A, B_: b.tr2delta(A, B_), 'adjoint_inv': lambda A, B_: b.adjoint(b.trinv(A)),
+         'trinv2': lambda A, B_: b.trinv2(A)}[p['which']]
+    try:
+        want = np.asarray(f(T0, T1), dtype=np.float64)
+    except Exception:
+        ctx.ood('delta')
+        return
+    try:
+        got = np.asarray(f(T0.astype(dt), T1.astype(dt)), dtype=np.float64)
+    except Exception as e:
+        ctx.ood('delta')        # (refusing an element type is not judged here)
+        ctx.cell('exact_refused', p['which'], str(dt), type(e).__name__)
+        return
+    res = md(got, want) if got.shape == want.shape else math.inf
+    ctx.judge('delta', res <= 1e-9, dict(sig, kind='element_type_changes_value'),
+              lambda: '%s of whole-number matrices held as %s: %s, the same numbers as float64 give %s (T0=%s T1=%s)' % (
+                  p['which'], dt, core.short(got, 200), core.short(want, 200), core.short(T0, 200), core.short(T1, 200)))
+    ctx.cell('exact', p['which'], str(dt))
+    ctx.nontrivial(p['which'], str(dt), T0.reshape(-1).tolist())
+
+
+RUNNERS = {'exact': run_exact, 'adj_multi': run_adj_multi, 'maps': run_maps, 'adj': run_adj, 'adj3': run_adj3, 'delta': run_delta, 'sym': run_sym}
 
 
 def REACH():
@@ -419,6 +447,20 @@ def run(ctx):
             ctx.sample(dict(case='adj', **p))
     for _ in range(ctx.scale(300, 5000)):
         drive(RUNNERS, ctx, 'adj3', dict(R=gen.so3(rng)))
+    for _ in range(ctx.scale(400, 8000)):
+        dt = ['int8', 'uint8', 'int16', 'int32', 'int64', 'uint16', 'float32', 'float16'][rng.integers(8)]
+        which = ['trinv', 'tr2delta2', 'adjoint_inv', 'trinv2'][rng.integers(4)]
+        lim = 100 if dt in ('int8', 'uint8', 'float16') else 1000
+
+        def exact_T(dim):
+            if dim == 3:
+                R = gen.exact_so3(rng) if not dt.startswith('u') else np.eye(3)[[[0, 1, 2], [1, 2, 0], [2, 0, 1]][rng.integers(3)]]
+            else:
+                R = [np.eye(2), np.array([[0.0, -1], [1, 0]]), -np.eye(2), np.array([[0.0, 1], [-1, 0]])][rng.integers(4) if not dt.startswith('u') else 0] + 0.0
+            t = rng.integers(0 if dt.startswith('u') else -lim, lim + 1, size=dim).astype(np.float64)
+            return ref.f64(ref.rt2tr(R, t))
+        dim = 2 if which == 'trinv2' else 3
+        drive(RUNNERS, ctx, 'exact', dict(which=which, dtype=dt, T0=exact_T(dim), T1=exact_T(dim)))
     for _ in range(ctx.scale(3000, 80000)):
         which = ['delta_roundtrip', 'delta_two_arg', 'delta_log', 'Delta_class'][rng.integers(4)]
         mag = gen.logu(rng, 1e-9, 1e-2)
